@@ -99,6 +99,9 @@ fn main() {
             println!("SAN-SUMMARY seed={seed} shard={shard} programs={done} findings={findings}");
             std::process::exit(if findings > 0 { 1 } else if done == 0 { 2 } else { 0 });
         }
+        "c02-scan" => {
+            mvmon::debugcmd::c02_scan(&args[2], args.get(3).map(|s| s.as_str()).unwrap_or("fri-proof"));
+        }
         "iter-src" => {
             let stack: Vec<u64> = args[3..].iter().map(|s| s.parse().expect("stack value")).collect();
             mvmon::debugcmd::iter_src(&args[2], &stack);
